@@ -3760,6 +3760,11 @@ func runC17(c *Ctx) {
 	}
 	// token objects whose Text is a substring of the input taken in one piece: Text = s[a:b] with Offset = a
 	sliceForm := map[ssa.Value]bool{}
+	type deferredText struct {
+		st   *ssa.Store
+		base ssa.Value
+	}
+	var deferred []deferredText
 	for _, f := range core.WithAnon(tk) {
 		for _, b := range f.Blocks {
 			for _, in := range b.Instrs {
@@ -3795,6 +3800,7 @@ func runC17(c *Ctx) {
 				if ld, isLd := sl.Low.(*ssa.UnOp); isLd && ld.Op == token.MUL {
 					if fo, isFO := ld.X.(*ssa.FieldAddr); isFO && core.FieldName(fo) == "Offset" && fo.X == fa.X {
 						ok = true
+						deferred = append(deferred, deferredText{st, fa.X})
 					}
 				}
 				c.R.Check(ok, "R17.1", "Tokenize: a token whose Text is a substring s[a:b] of the input has Offset a", p.Pos(st.Pos()), "Text: s[a:b], Offset: a (the same value)", "the token's Text is cut from the input at a position other than its Offset")
@@ -4054,6 +4060,63 @@ func runC17(c *Ctx) {
 	}
 	c.R.RequireMin("R17.1", "contributions to token Text", n, 1)
 
+	// R17.13 a token whose text is filled in when it ends (Text = s[tok.Offset:i], set once the next character shows that the
+	// token is over) is also closed when the input ends: for every such variable that is carried round the scan loop there is a
+	// store of the same form behind the loop. A run that is still open at the end of the input otherwise keeps the text it
+	// had when it was opened, and the characters behind it belong to no token.
+	if len(deferred) > 0 {
+		web := func(v ssa.Value) map[ssa.Value]bool {
+			w := map[ssa.Value]bool{}
+			var walk func(x ssa.Value)
+			walk = func(x ssa.Value) {
+				x = core.Unspill(x)
+				if x == nil || w[x] {
+					return
+				}
+				w[x] = true
+				if ph, ok := x.(*ssa.Phi); ok {
+					for _, e := range ph.Edges {
+						walk(e)
+					}
+				}
+				if x.Referrers() != nil {
+					for _, r := range *x.Referrers() {
+						if ph, ok := r.(*ssa.Phi); ok {
+							walk(ph)
+						}
+					}
+				}
+			}
+			walk(v)
+			return w
+		}
+		bad := ""
+		nV := 0
+		done := map[ssa.Value]bool{}
+		for _, d := range deferred {
+			if loopDepthOf(d.st.Block()) == 0 || done[d.base] {
+				continue
+			}
+			w := web(d.base)
+			for v := range w {
+				done[v] = true
+			}
+			nV++
+			closed := false
+			for _, e := range deferred {
+				if loopDepthOf(e.st.Block()) == 0 && w[core.Unspill(e.base)] {
+					closed = true
+				}
+			}
+			if !closed && bad == "" {
+				bad = p.Pos(d.st.Pos())
+			}
+		}
+		if nV > 0 {
+			c.R.Check(bad == "", "R17.13", "Tokenize: a token whose text is filled in when it ends is also closed at the end of the input", p.Pos(tk.Pos()), fmt.Sprintf("%d loop-carried tokens with a deferred text, each closed behind the loop", nV),
+				"the token whose text is set at "+bad+" is only closed inside the scan loop: when the input ends while it is open, it keeps the text it was opened with and the characters behind it are covered by no token")
+		}
+	}
 	// R17.12 the tokens come out in the order of the text: a token that is built and appended in one step (a punctuation mark, any
 	// other one-character token) is appended only behind the test whether a word is still pending - the pending word starts
 	// earlier in the text and has to go first. A new case that appends without that test puts the word it interrupts behind
